@@ -37,6 +37,7 @@ def run_demo_once(wt, mdir, meta):
     cmd = d.get("run", "")
     cmd = re.sub(r"/tmp/seed/C\d+", wt, cmd)
     cmd = re.sub(r"/tmp/seedout/C\d+/m\d+", mdir, cmd)
+    cmd = cmd.replace("<repo>", wt).replace("$REPO", wt).replace("${REPO}", wt)
     if not cmd:
         return None, "no demo command"
     if "cp " in cmd:
